@@ -42,39 +42,35 @@ func (c *Check) pricingIdentity(rule string) {
 	gBinding := c.getterByType("ServiceBinding")
 	// (a) the ServiceFee recorded on issued requests is result #0 of the same pricing routine
 	found := false
-	for _, f := range c.handFuncs("keeper") {
-		for _, pa := range c.P.PathsOf(f) {
-			for _, r := range pa.Ret {
-				if r.Op != "lit" || len(r.A) == 0 || r.A[0].At != "types.CompactRequest" {
-					continue
-				}
-				found = true
-				fee := field("CompactRequest", "ServiceFee", r)
-				af := pa.AllFacts()
-				switch {
-				case fee.IsAt("zero"):
-					// allowed only in super mode
-					sm := false
-					for _, fa := range af {
-						if !fa.Neg && fa.T.Op == "" && strings.HasPrefix(fa.T.At, "P") && isBoolParam(f, fa.T.At) {
-							sm = true
-						}
-					}
-					c.req(sm, rule, unitConstruct(f, "fee-zero-only-in-supermode"), pa.RetPos, "a request is recorded without a fee only on the true edge of the super-mode flag")
-				default:
-					b, ok := fee.Match("(res 0 $CALL)")
-					same := ok && b["$CALL"].Op == u.PR.Name
-					c.req(same, rule, unitConstruct(f, "recorded-fee-routine"), pa.RetPos,
-						"the recorded ServiceFee is result #0 of the pricing routine "+u.PR.Name+" that the filter charges with; found "+shortTerm(fee))
-					nsm := false
-					for _, fa := range af {
-						if fa.Neg && fa.T.Op == "" && strings.HasPrefix(fa.T.At, "P") && isBoolParam(f, fa.T.At) {
-							nsm = true
-						}
-					}
-					c.req(nsm, rule, unitConstruct(f, "fee-only-without-supermode"), pa.RetPos, "a fee is recorded only on the false edge of the super-mode flag")
+	isSuperFlag := func(t *Term, f *Func) bool {
+		if t.Op == "" && strings.HasPrefix(t.At, "P") && isBoolParam(f, t.At) {
+			return true
+		}
+		return strings.HasSuffix(t.Op, ".SuperMode")
+	}
+	for _, rv := range c.compactRequestValues() {
+		found = true
+		f := rv.fn
+		fee := field("CompactRequest", "ServiceFee", rv.lit)
+		sm, nsm := false, false
+		for _, fa := range rv.facts {
+			if isSuperFlag(fa.T, f) {
+				if fa.Neg {
+					nsm = true
+				} else {
+					sm = true
 				}
 			}
+		}
+		switch {
+		case fee.IsAt("zero"):
+			c.req(sm, rule, unitConstruct(f, "fee-zero-only-in-supermode"), rv.pos, "a request is recorded without a fee only on the true edge of the super-mode flag")
+		default:
+			b, ok := fee.Match("(res 0 $CALL)")
+			same := ok && b["$CALL"].Op == u.PR.Name
+			c.req(same, rule, unitConstruct(f, "recorded-fee-routine"), rv.pos,
+				"the recorded ServiceFee is result #0 of the pricing routine "+u.PR.Name+" that the filter charges with; found "+shortTerm(fee))
+			c.req(nsm, rule, unitConstruct(f, "fee-only-without-supermode"), rv.pos, "a fee is recorded only on the false edge of the super-mode flag")
 		}
 	}
 	c.req(found, rule, "request-constructor", token.NoPos, "a function constructing CompactRequest records was found")
@@ -160,4 +156,51 @@ func (c *Check) moduleServicePath(rule string) {
 			return
 		}
 	}
+}
+
+type crValue struct {
+	lit   *Term
+	facts FactSet
+	fn    *Func
+	pos   token.Pos
+}
+
+// compactRequestValues: every CompactRequest value the module constructs — returned by a builder
+// function or stored directly by the batch-start function — with the facts of its path.
+func (c *Check) compactRequestValues() []crValue {
+	var out []crValue
+	seen := map[string]bool{}
+	add := func(v crValue) {
+		k := v.fn.Name + "|" + v.lit.String() + "|" + strings.Join(v.facts.Sorted(), "&")
+		if !seen[k] {
+			seen[k] = true
+			out = append(out, v)
+		}
+	}
+	for _, f := range c.handFuncs("keeper") {
+		for _, pa := range c.P.PathsOf(f) {
+			for _, r := range pa.Ret {
+				if r.Op == "lit" && len(r.A) > 0 && r.A[0].At == "types.CompactRequest" {
+					add(crValue{r, pa.AllFacts(), f, pa.RetPos})
+				}
+			}
+		}
+	}
+	for f, pps := range c.persistUnits("0x13", "CompactRequest") {
+		for _, pp := range pps {
+			for i, sv := range pp.Stored {
+				if sv.Op == "lit" {
+					// facts up to the store event
+					idx := len(pp.Path.Events)
+					for j, ev := range pp.Path.Events {
+						if ev == pp.SetEvs[i] {
+							idx = j
+						}
+					}
+					add(crValue{sv, pp.Path.FactsBefore(idx), f, pp.SetEvs[i].Pos})
+				}
+			}
+		}
+	}
+	return out
 }
